@@ -180,13 +180,14 @@ def hLoop {σ : Type} (P : HParams α n) (Kn : HKernel α n) (f : Rhs α n) (ob 
     | .inr r => some r
     | .inl s' => hLoop P Kn f ob fuel s'
 
-/-- initial meter: first derivative, then either the given first step or the `hinit` probe -/
-def startMeter (f : Rhs α n) (x0 : α) (y0 : Vec α n) (posneg : α) (firstStep : Option α)
+/-- initial meter: first derivative, then either the given first step (limited to `hcap` = hmax: `h0.abs().min(h_max) * posneg`)
+    or the `hinit` probe -/
+def startMeter (f : Rhs α n) (x0 : α) (y0 : Vec α n) (posneg hcap : α) (firstStep : Option α)
     (hinit : Rhs α n → Vec α n → α × Array (α × Vec α n)) : α × Vec α n × Meter α n :=
   let k1 := f 0 x0 y0
   let m : Meter α n := ({} : Meter α n).bump #[(x0, y0)] 1
   match firstStep with
-  | some h0 => (Num.abs h0 * posneg, k1, m)
+  | some h0 => (Num.fmin (Num.abs h0) hcap * posneg, k1, m)
   | none =>
     let r := hinit (fun j => f (1 + j)) k1
     (r.1, k1, m.bump r.2 1)
@@ -195,7 +196,7 @@ def startMeter (f : Rhs α n) (x0 : α) (y0 : Vec α n) (posneg : α) (firstStep
 def hStart {σ : Type} (P : HParams α n) (f : Rhs α n) (ob : Obs σ α n) (obs0 : σ) (x0 : α) (y0 : Vec α n)
     (firstStep : Option α) (hinit : Rhs α n → Vec α n → α × Array (α × Vec α n)) (facold0 hlamb0 : α) :
     Sum (HState σ α n) (Result σ α n) :=
-  let i := startMeter f x0 y0 P.posneg firstStep hinit
+  let i := startMeter f x0 y0 P.posneg P.hmax firstStep hinit
   let m := i.2.2.cb x0 x0 y0 #[]
   match afterCb f ob obs0 m x0 x0 y0 none i.2.1 with
   | .stop obs y => .inr { status := .userInterrupt, h := i.1, x := x0, y := y, m := m, obs := obs }
